@@ -74,6 +74,9 @@ VAL_CASES = part([
     ('[type=ab i]', 'type', 'ab', 'i'), ('[TYPE=ab]', 'type', 'ab', None), ('[t^=a]', 't', 'a', None),
     ('[type^=A]', 'type', 'A', None), ('[type$=B s]', 'type', 'B', 's'), ('[t~=AB i]', 't', 'AB', 'i'),
     ('[type|=ab]', 'type', 'ab', None), ('[t*=B]', 't', 'B', None), ('[type!=AB]', 'type', 'AB', None),
+    ('[datatype=AB]', 'datatype', 'AB', None), ('[types=AB]', 'types', 'AB', None), ('[xtype^=A]', 'xtype', 'A', None),
+    ('[typ=AB]', 'typ', 'AB', None), ('[id=AB]', 'id', 'AB', None), ('[class=AB]', 'class', 'AB', None),
+    ('[type="AB" s]', 'type', 'AB', 's'), ('[TYPE="ab" s]', 'type', 'ab', 's'),
 ])
 VAL_COMPILED = [sv.compile(c[0]) for c in VAL_CASES]
 OPS = {'=': '=', '^': '^=', '$': '$=', '~': '~=', '|': '|=', '*': '*=', '!': '!='}
@@ -126,6 +129,26 @@ WRAPS = ['%s', 'a%s', '*|*%s', ':is(%s)', ':is(root, %s)', 'root %s', '%s *', ':
          ':nth-child(n of %s)']
 
 
+IDC = [sv.compile(x) for x in ('#ab', '#AB', '.ab', '.AB', '#aB.Ab')]
+IDC_VALUES = [('ab', None), ('AB', None), (None, 'ab'), (None, 'AB'), ('aB', 'Ab')]
+
+
+def id_class_case_ok(idv: str, clsv: str, ki: int) -> bool:
+    """
+    pre: len(idv) == 2 and _low(idv) == 'ab' and len(clsv) == 2 and _low(clsv) == 'ab'
+    pre: 0 <= ki <= 2
+    post: _
+    """
+    # ids and classes are values: compared exactly in every document type
+    soup, el = build(KINDS[ki], 'p', 'id', idv)
+    el.attrs['class'] = [clsv]
+    ok = True
+    for c, (wi, wc) in zip(IDC, IDC_VALUES):
+        exp = (wi is None or idv == wi) and (wc is None or clsv == wc)
+        ok = ok and (any(e is el for e in c.select(soup)) == exp)
+    return ret(ok)
+
+
 def html_only_ok(pi: int) -> bool:
     """
     pre: 0 <= pi < len(HTML_ONLY)
@@ -146,6 +169,10 @@ def html_only_ok(pi: int) -> bool:
                     ok = ok and all(e.name == 'root' for e in r)
                 else:
                     ok = ok and r == []
+        # and its negation matches every element there
+        for d in XML_DOCS:
+            ok = ok and len(sv.select(':not(' + p + ')', d)) == len(tg.elements(d))
+            ok = ok and len(sv.select('*|*:not(:is(' + p + ', ' + p + '))', d)) == len(tg.elements(d))
         # sanity of the oracle: the same selectors are not vacuous on HTML-namespaced content
         ok = ok and len(sv.select(p, FORMS_XHTML)) > 0
     return ret(ok)
@@ -153,7 +180,7 @@ def html_only_ok(pi: int) -> bool:
 
 # ---- the same logical tree from each installed parser ------------------------------------------------------------
 
-MARKUP = '<html><body><AB TT="Ab" Type="Ab" id="x">t</AB></body></html>'
+MARKUP = '<html><body><AB TT="Ab" Type="Ab" id="x">t</AB><svg viewBox="0 0 1 1" id="sv"><linearGradient id="lg" gradientUnits="u"/></svg></body></html>'
 PARSED = [(p, bs4.BeautifulSoup(MARKUP, p)) for p in ('html.parser', 'lxml', 'html5lib')]
 PARSED.append(('xml', bs4.BeautifulSoup('<r><AB TT="Ab" Type="Ab" id="x">t</AB></r>', 'xml')))
 PARSED_SELECTORS = [
@@ -161,6 +188,8 @@ PARSED_SELECTORS = [
     ('[tt=Ab]', True, False), ('[tt=ab]', False, False), ('[TT=ab]', False, False), ('[tt=ab i]', True, False),
     ('[TT=ab i]', True, True), ('[type=ab]', True, False), ('[Type=ab]', True, False), ('[Type=Ab]', True, True),
     ('[type=ab s]', False, False), ('[TYPE="Ab" s]', True, False), ('Ab[tT="Ab"]', True, False), ('AB[TT="Ab"]', True, True),
+    ('[viewBox]', True, None), ('[viewbox]', True, None), ('[VIEWBOX]', True, None), ('lineargradient', True, None),
+    ('linearGradient', True, None), ('[gradientunits=u]', True, None), ('[GradientUnits="u"]', True, None),
 ]
 
 
@@ -176,5 +205,7 @@ def parsed_case_ok(si: int) -> bool:
         ok = True
         for name, d in PARSED:
             got = len(sv.select(text, d)) == 1
+            if name == 'xml' and xml_exp is None:
+                continue
             ok = ok and got == (xml_exp if name == 'xml' else html_exp)
     return ret(ok)
